@@ -38,8 +38,22 @@ def as_user(name):
 
 res = {'ready': ok, 'steps': []}
 n = 0
+crowd = []
 for c in (plan['cmds'] if ok else []):
     n += 1
+    if c['op'] == 'crowd':
+        # other peers: n connections opened and kept open (n = 0: all of them closed again)
+        import socket
+        if c['n'] == 0:
+            for x in crowd: x.close()
+            crowd.clear()
+        for _ in range(c['n']):
+            x = socket.socket(socket.AF_UNIX, socket.SOCK_STREAM)
+            try: x.connect('\0/var/run/echse/=echsd'); crowd.append(x)
+            except OSError: pass
+        time.sleep(0.2)
+        res['steps'].append({'rc': 0, 'out': str(len(crowd)), 'err': '', 'cwd': ''})
+        continue
     env = dict(os.environ, HOME='/nonexistent')
     cwd = CW + '/' + c.get('cwd', plan['dirs'][0])
     args = [B + '/echsq']
